@@ -962,6 +962,10 @@ def verify_contract(cdef, tier='quick', seed=0, refuted=None):
     """explore + discharge + replay one contract; returns a plain dict"""
     t_start = time.time()
     timeout_ms = cdef.timeout_ms or (20000 if tier == 'quick' else 120000)
+    if refuted:
+        # the contract is already violated on a native run (reported with its input): the symbolic run only adds detail,
+        # so no VC gets more than a short budget
+        timeout_ms = min(timeout_ms, 3000)
     out = {'contract': cdef.ident, 'prop': cdef.prop, 'name': cdef.name, 'targets': cdef.targets,
            'doc': cdef.doc, 'bounded': cdef.bounded, 'obligations': {}, 'paths': 0, 'undecided': [],
            'source_hashes': {t: source_hash(t) for t in cdef.targets},
